@@ -202,6 +202,8 @@ func runC19(c *Ctx) {
 	pk := p.Pkgs[core.PkgProto]
 
 	ruleConflictsSymm(c, p, "C19.symm")
+	ruleWrapperElem(c, p, "C19.wrapper-elem")
+	ruleConfigParsed(c, p, "C19.config")
 	ruleSliceOrder(c, p, "C19.slices")
 	ruleAdopt(c, p, "C19.adopt")
 	ruleInferErrors(c, p, "C19.infer-errors")
@@ -252,6 +254,16 @@ func runC19(c *Ctx) {
 			}
 			return nonNil, true
 		})
+		guard = append(guard, core.FlagEdges(inf, func(h *ssa.Function, ret *ssa.Return) bool {
+			hg := core.CondEdges(h, true, func(cond ssa.Value) (bool, bool) {
+				x, nonNil, ok := nilCmp(cond)
+				if !ok || core.FieldOrigin(x, 0) != "ColAuto.Data" {
+					return false, false
+				}
+				return nonNil, true
+			})
+			return len(hg) > 0 && core.OnlyViaEdges(h, ret, hg)
+		})...)
 		isDataStore := func(in ssa.Instruction) bool {
 			s, ok := in.(*ssa.Store)
 			if !ok {
@@ -1010,13 +1022,232 @@ func ruleAutoAdopts(c *Ctx, p *core.Program, rule string) {
 		}
 		return true, core.IsNamed(ta.AssertedType, core.PkgProto, "Inferable")
 	})
+	// the shortcut may live in a helper method reporting `done`: on the edge where the flag has a value
+	// for which every such return of the helper is itself behind an adoption, the obligation is met
+	sameRecv := func(h *ssa.Function) bool {
+		return len(h.Params) > 0 && h.Signature.Recv() != nil && types.Identical(h.Params[0].Type(), recv.Type())
+	}
+	adoptsIn := func(h *ssa.Function) func(in ssa.Instruction) bool {
+		hr := h.Params[0]
+		return func(in ssa.Instruction) bool {
+			switch x := in.(type) {
+			case *ssa.Store:
+				if fa, ok := x.Addr.(*ssa.FieldAddr); ok && fa.X == ssa.Value(hr) && fieldNameOnly(fa.X.Type(), fa.Field) == "Data" {
+					return true
+				}
+			case ssa.CallInstruction:
+				cc := x.Common()
+				if cc.IsInvoke() && cc.Method.Name() == "Infer" {
+					return core.DependsOn(cc.Value, func(v ssa.Value) bool {
+						fa, ok := v.(*ssa.FieldAddr)
+						return ok && fa.X == ssa.Value(hr) && fieldNameOnly(fa.X.Type(), fa.Field) == "Data"
+					}, false)
+				}
+			}
+			return false
+		}
+	}
+	notInferableIn := func(h *ssa.Function) []core.Edge {
+		return core.CondEdges(h, false, func(cond ssa.Value) (bool, bool) {
+			ex, ok := cond.(*ssa.Extract)
+			if !ok || ex.Index != 1 {
+				return false, false
+			}
+			ta, ok := ex.Tuple.(*ssa.TypeAssert)
+			if !ok || !ta.CommaOk {
+				return false, false
+			}
+			return true, core.IsNamed(ta.AssertedType, core.PkgProto, "Inferable")
+		})
+	}
+	adoptedFlag := core.FlagEdges(inf, func(h *ssa.Function, ret *ssa.Return) bool {
+		if !sameRecv(h) {
+			return false
+		}
+		if ei, ok := core.ReturnsError(h.Signature); ok && len(ret.Results) > ei && !core.MayBeNilError(ret.Results[ei], 0) {
+			return true // a failure return: nothing to show
+		}
+		return len(core.ReachAvoiding(core.Entry(h), func(x ssa.Instruction) bool { return x == ssa.Instruction(ret) }, adoptsIn(h), core.WithoutEdges(notInferableIn(h)))) == 0
+	})
 	hits := core.ReachAvoiding(core.Entry(inf), func(x ssa.Instruction) bool {
 		ret, ok := x.(*ssa.Return)
 		return ok && x.Block().Comment != "recover" && defaultSuccess(inf, ret)
-	}, adopts, core.WithoutEdges(notInferable))
+	}, adopts, core.WithoutEdges(append(append([]core.Edge{}, notInferable...), adoptedFlag...)))
 	if len(hits) > 0 {
 		c.R.Bad(rule, "ColAuto.Infer", cfg, p.Pos(hits[0].At.Pos()), "ColAuto.Infer can succeed while the held column neither was created for the requested type nor was told about it: after DateTime64(3), a request for DateTime64(9) keeps the precision-3 column and reports type DateTime64(9)", p.TrailString(hits[0])...)
 	} else {
 		c.R.Ok(rule, "ColAuto.Infer", cfg, p.Pos(inf.Pos()), "every success path creates the column for t or forwards t to it")
 	}
+	// keeping the held column is justified only by Conflicts saying the types are compatible
+	creates := func(in ssa.Instruction) bool {
+		x, ok := in.(*ssa.Store)
+		if !ok {
+			return false
+		}
+		fa, ok := x.Addr.(*ssa.FieldAddr)
+		return ok && fa.X == ssa.Value(recv) && fieldNameOnly(fa.X.Type(), fa.Field) == "Data"
+	}
+	compatible := core.PredEdges(inf, false, func(cond ssa.Value) (bool, bool) {
+		_, ok := core.CallTo(cond, func(f *types.Func) bool { return core.IsMethod(f, core.PkgProto, "ColumnType", "Conflicts") })
+		return true, ok
+	})
+	compatible = append(compatible, core.FlagEdges(inf, func(h *ssa.Function, ret *ssa.Return) bool {
+		if !sameRecv(h) {
+			return false
+		}
+		hc := core.PredEdges(h, false, func(cond ssa.Value) (bool, bool) {
+			_, ok := core.CallTo(cond, func(f *types.Func) bool { return core.IsMethod(f, core.PkgProto, "ColumnType", "Conflicts") })
+			return true, ok
+		})
+		return len(hc) > 0 && core.OnlyViaEdges(h, ret, hc)
+	})...)
+	keep := core.ReachAvoiding(core.Entry(inf), func(x ssa.Instruction) bool {
+		ret, ok := x.(*ssa.Return)
+		return ok && x.Block().Comment != "recover" && defaultSuccess(inf, ret)
+	}, creates, core.WithoutEdges(compatible))
+	if len(keep) > 0 {
+		c.R.Bad(rule, "ColAuto.Infer/keep", cfg, p.Pos(keep[0].At.Pos()), "ColAuto.Infer can succeed keeping the held column without Conflicts having found the requested type compatible with it: after Nullable(UInt32), a request for Nullable(Float32) keeps the UInt32 column, reports the new type, and the next block is decoded by the wrong column without an error", p.TrailString(keep[0])...)
+	} else {
+		c.R.Ok(rule, "ColAuto.Infer/keep", cfg, p.Pos(inf.Pos()), sprintf("the held column is kept only behind the compatible edge of Conflicts (%d edges)", len(compatible)))
+	}
+}
+
+// ---- C18.lenient: Conflicts may ignore parameters only where they do not change the wire width
+func ruleLenientWidth(c *Ctx, p *core.Program, rule string) {
+	c.R.Rule(rule, "Conflicts declares two types of the same base compatible whatever their parameters (`case K: return false`) only for bases whose parameters do not change how many bytes a row occupies: no column type whose Type() is built from such a base K sizes its decoder's allocation by a configuration field (FixedString's Size) - otherwise a FixedString(32) result is accepted into a FixedString(16) target and half of every value is decoded as the next one")
+	cfg := p.Cfg.Name
+	cf := p.Method(core.PkgProto, "ColumnType", "Conflicts")
+	if !c.must(p, "ColumnType.Conflicts", cf != nil) {
+		return
+	}
+	returnsFalseOnly := func(b *ssa.BasicBlock) bool {
+		if len(b.Instrs) != 1 {
+			return false
+		}
+		ret, ok := b.Instrs[0].(*ssa.Return)
+		if !ok || len(ret.Results) != 1 {
+			return false
+		}
+		k, ok := ret.Results[0].(*ssa.Const)
+		return ok && k.Value != nil && k.Value.Kind() == constant.Bool && !constant.BoolVal(k.Value)
+	}
+	lenient := map[string]token.Pos{}
+	for _, b := range cf.Blocks {
+		ifi, ok := b.Instrs[len(b.Instrs)-1].(*ssa.If)
+		if !ok {
+			continue
+		}
+		bo, ok := ifi.Cond.(*ssa.BinOp)
+		if !ok || bo.Op != token.EQL {
+			continue
+		}
+		for _, side := range []ssa.Value{bo.X, bo.Y} {
+			if k, ok := side.(*ssa.Const); ok && k.Value != nil && k.Value.Kind() == constant.String && returnsFalseOnly(b.Succs[0]) {
+				lenient[constant.StringVal(k.Value)] = ifi.Cond.Pos()
+			}
+		}
+	}
+	if len(lenient) == 0 {
+		c.R.Ok(rule, "Conflicts/lenient", cfg, p.Pos(cf.Pos()), "no base is compatible regardless of parameters")
+		return
+	}
+	fields := configFields(p)
+	sized := map[string]string{} // type name -> field
+	for k := range fields {
+		tn, fld, _ := strings.Cut(k, ".")
+		sized[tn] = fld
+	}
+	names := []string{}
+	for k := range lenient {
+		names = append(names, k)
+	}
+	sort.Strings(names)
+	for _, k := range names {
+		bad := ""
+		for _, ct := range columnTypes(p) {
+			fld, isSized := sized[ct.Obj().Name()]
+			if !isSized {
+				continue
+			}
+			tm := methodOf(p, ct, "Type")
+			if tm == nil || tm.Blocks == nil {
+				continue
+			}
+			for _, b := range tm.Blocks {
+				for _, in := range b.Instrs {
+					for _, op := range in.Operands(nil) {
+						if kc, ok := (*op).(*ssa.Const); ok && kc.Value != nil && kc.Value.Kind() == constant.String && constant.StringVal(kc.Value) == k {
+							bad = ct.Obj().Name() + "." + fld
+						}
+					}
+				}
+			}
+		}
+		if bad != "" {
+			c.R.Bad(rule, "Conflicts/lenient/"+k, cfg, p.Pos(lenient[k]), "Conflicts accepts any two "+k+"(...) types as compatible, but the decoder of "+strings.Split(bad, ".")[0]+" reads rows*"+bad+" bytes: a result of another width is decoded into the target without an error, with every value cut or merged")
+		} else {
+			c.R.Ok(rule, "Conflicts/lenient/"+k, cfg, p.Pos(lenient[k]), "parameters of "+k+" do not size a decoder")
+		}
+	}
+}
+
+// ---- wrapper-elem (C19 / C18): a one-element wrapper forwards the element type, not its own
+func ruleWrapperElem(c *Ctx, p *core.Program, rule string) {
+	c.R.Rule(rule, "a wrapper column whose Type() is Base.Sub(inner.Type()) with a single inner column (Array, Nullable, LowCardinality) hands its inner column, in Infer, a type derived from t.Elem() and never its own type string t: forwarding `Nullable(DateTime64(3))` unchanged makes the inner DateTime64 parse the wrapper's string, so the first inference (done on the bare inner column) works and every re-inference of the same well-formed type fails")
+	cfg := p.Cfg.Name
+	n := 0
+	for _, ct := range columnTypes(p) {
+		tm := methodOf(p, ct, "Type")
+		inf := methodOf(p, ct, "Infer")
+		if tm == nil || inf == nil || tm.Blocks == nil || inf.Blocks == nil || len(inf.Params) < 2 {
+			continue
+		}
+		inner, sub := 0, false
+		for _, b := range tm.Blocks {
+			for _, in := range b.Instrs {
+				cl, ok := in.(ssa.CallInstruction)
+				if !ok {
+					continue
+				}
+				cc := cl.Common()
+				if cc.IsInvoke() && cc.Method.Name() == "Type" {
+					if loopHeaderOf(b) != nil {
+						inner += 2
+					} else {
+						inner++
+					}
+				}
+				if f := core.CalleeFunc(cl); f != nil && core.IsMethod(f, core.PkgProto, "ColumnType", "Sub") {
+					sub = true
+				}
+			}
+		}
+		if !sub || inner != 1 {
+			continue
+		}
+		tparam := inf.Params[1]
+		for fi, fw := range core.ForwardedInvokes(inf, "Infer") {
+			if len(fw.Args) != 1 {
+				continue
+			}
+			call := fw.At
+			cc := struct{ Args []ssa.Value }{fw.Args}
+			n++
+			key := sprintf("%s/infer#%d/elem", core.FuncName(inf), fi+1)
+			fromElem := core.DependsOn(cc.Args[0], func(v ssa.Value) bool {
+				cl, ok := v.(*ssa.Call)
+				if !ok {
+					return false
+				}
+				f := core.CalleeFunc(cl)
+				return f != nil && core.IsMethod(f, core.PkgProto, "ColumnType", "Elem")
+			}, false)
+			if stripConv(cc.Args[0]) == ssa.Value(tparam) || !fromElem {
+				c.R.Bad(rule, key, cfg, p.Pos(call.Pos()), ct.Obj().Name()+".Infer forwards a type that is not derived from t.Elem() to its inner column: the inner column is asked to parse the wrapper's own type string")
+			} else {
+				c.R.Ok(rule, key, cfg, p.Pos(call.Pos()), "inner column inferred from t.Elem()")
+			}
+		}
+	}
+	c.R.Floor(rule, cfg, n, 1)
 }
